@@ -70,7 +70,8 @@ def gen(rng, kind, tier):
     cls = str(rng.choice(["SphericalDroplet", "DiffuseDroplet"]))
     R = float(rng.choice([0.0, 1.0])) if rng.random() < 0.1 else float(10 ** rng.uniform(-6, 6))
     return {"cls": cls, "pos": [float(x) for x in rng.normal(0, 10 ** rng.uniform(-1, 3), dim)], "radius": R,
-            "new_volume": float(10 ** rng.uniform(-12, 12)) if rng.random() > 0.05 else 0.0,
+            "new_volume": (float(10 ** rng.uniform(-12, 12)) if rng.random() > 0.15 else float(10 ** rng.uniform(-30, -12)))
+            if rng.random() > 0.05 else 0.0,
             "width": None if rng.random() < 0.5 else 0.3, "route": common.pick_route(rng, 0.5)}
 
 
